@@ -7,8 +7,12 @@ package exec
 
 import (
 	"fmt"
+	"math/big"
 	"os"
 	"go/types"
+
+	"github.com/btcsuite/btcd/btcec/v2"
+	"github.com/decred/dcrd/dcrec/edwards/v2"
 
 	"gosym/smt"
 )
@@ -193,6 +197,7 @@ func (p *pathRun) hashInts(fr *frame, fam string, tag value, hasTag bool, ins []
 				var eqs []*smt.Term
 				for i := range args {
 					eqs = append(eqs, c.Eq(prev.args[i], args[i]))
+					p.pointEqLemma(prev.args[i], args[i])
 				}
 				p.axiom("hash-summary-injective", c.Implies(c.Eq(prev.out, out), c.And(eqs...)))
 			} else {
@@ -200,6 +205,52 @@ func (p *pathRun) hashInts(fr *frame, fam string, tag value, hasTag bool, ins []
 			}
 		}
 		_ = seen
+	}
+	if p.summ["challenge-independent"] {
+		// random-oracle coin exclusion for Fiat-Shamir challenges (C12): two hash applications with
+		// different argument lists do not collide modulo a group order either (probability 2^-128
+		// per pair: the outputs are below 2^256 and the orders above 2^252)
+		fresh := true
+		for _, prev := range p.hashIntApps {
+			if prev.out == out {
+				fresh = false
+				break
+			}
+		}
+		if fresh {
+			// ... and a challenge is not 0 modulo a group order (probability 2^-252)
+			p.res.Assumes["challenge-nonzero-mod-order"]++
+			for _, N := range []*big.Int{secpN, edN} {
+				p.addPC(c.Not(c.Eq(c.Mod(out, c.IntC(N)), c.IntC64(0))))
+			}
+		}
+		for _, prev := range p.hashIntApps {
+			if prev.out == out {
+				break
+			}
+			var same *smt.Term = c.False()
+			if prev.name == name && len(prev.args) == len(args) {
+				var eqs []*smt.Term
+				for i := range args {
+					a, b := prev.args[i], args[i]
+					if a.Op == "bv2nat" && b.Op == "bv2nat" && a.Args[0].Sort.W == b.Args[0].Sort.W {
+						// symbolic tags: compare the bytes in the bit-vector theory
+						eqs = append(eqs, c.Eq(a.Args[0], b.Args[0]))
+						continue
+					}
+					eqs = append(eqs, c.Eq(a, b))
+					p.pointEqLemma(a, b)
+				}
+				same = c.And(eqs...)
+			}
+			for _, N := range []*big.Int{secpN, edN} {
+				Nt := c.IntC(N)
+				p.axiom("challenge-independent", c.Implies(c.Eq(c.Mod(prev.out, Nt), c.Mod(out, Nt)), same))
+				// the same fact in the canonical forms the congruence reasoning produces
+				p.axiom("challenge-independent", c.Implies(p.congruent(prev.out, out, Nt), same))
+				p.axiom("challenge-independent", c.Implies(p.congruent(out, prev.out, Nt), same))
+			}
+		}
 	}
 	p.hashIntApps = append(p.hashIntApps, hashIntApp{name, args, out})
 	return p.newBig(out)
@@ -212,3 +263,7 @@ type hashIntApp struct {
 }
 
 var _ = types.Int
+
+var secpN = btcec.S256().Params().N
+var edN = edwards.Edwards().Params().N
+
